@@ -140,6 +140,7 @@ func anyInt(x any) int64 {
 type grow struct {
 	id   int64
 	vals []gval
+	raw  map[int]any // column -> value actually emitted (function-valued keys: vals holds the function's value)
 }
 
 func (r grow) tok() string {
@@ -155,7 +156,9 @@ func colName(i int) string { return "k" + strconv.Itoa(i+1) }
 func (r grow) toMap() map[string]any {
 	m := map[string]any{"id": r.id}
 	for i, v := range r.vals {
-		if x, ok := v.goValue(); ok {
+		if x, ok := r.raw[i]; ok {
+			m[colName(i)] = x
+		} else if x, ok := v.goValue(); ok {
 			m[colName(i)] = x
 		}
 	}
@@ -306,10 +309,15 @@ func (g gresult) tok(withFL bool) string {
 	return strings.Join(parts, " ")
 }
 
-func parseResult(m map[string]any, ncols int) gresult {
+// outNames: the output column of grouping column i (nil: the column's own name)
+func parseResult(m map[string]any, ncols int, outNames ...string) gresult {
 	g := gresult{first: -1, last: -1}
 	for i := 0; i < ncols; i++ {
-		v, ok := m[colName(i)]
+		name := colName(i)
+		if i < len(outNames) {
+			name = outNames[i]
+		}
+		v, ok := m[name]
 		if !ok {
 			g.tuple = append(g.tuple, "s"+hexTok("?absent"))
 		} else {
@@ -345,7 +353,7 @@ func groupCols(ncols int) string {
 // runSQL executes rows through the public API and returns the result rows in sink order
 // (synchronous sink: delivery order of the result goroutine). done(results so far) tells when to
 // stop waiting; the wait is bounded by maxWait.
-func runSQL(sql string, rows []grow, extra []map[string]any, ncols int, done func([]gresult) bool, maxWait time.Duration) ([]gresult, error) {
+func runSQL(sql string, rows []grow, extra []map[string]any, ncols int, done func([]gresult) bool, maxWait time.Duration, outNames ...string) ([]gresult, error) {
 	s := streamsql.New()
 	defer s.Stop()
 	if err := s.Execute(sql); err != nil {
@@ -359,7 +367,7 @@ func runSQL(sql string, rows []grow, extra []map[string]any, ncols int, done fun
 		// rows of one delivery come from ranging over a Go map: order them by first id
 		batch := make([]gresult, 0, len(res))
 		for _, r := range res {
-			batch = append(batch, parseResult(r, ncols))
+			batch = append(batch, parseResult(r, ncols, outNames...))
 		}
 		sort.SliceStable(batch, func(i, j int) bool {
 			a, b := int64(-1), int64(-1)
@@ -709,6 +717,39 @@ func countingSQL(rng *RNG, kind string, n, ncols int, rows []grow) ([]gresult, e
 	return res, nil
 }
 
+// fnKeyCase: GROUP BY upper(k1)[, k2] with aliases in the SELECT list: the VALUE of the function defines
+// the group and is what is reported, under the alias. The case line carries the function values.
+func fnKeyCase(rng *RNG, o *Out) error {
+	n := 1 + rng.Intn(3)
+	ncols := 1 + rng.Intn(2)
+	raws := []string{"a", "A", "b", "a|b", "A|b", "a|B", "", "x\x1fy", "X\x1fy", "é", "ab", "aB"}
+	seconds := []string{"c", "b|c", "", "C"}
+	l := 1 + rng.Intn(5*n)
+	rows := make([]grow, l)
+	for i := range rows {
+		raw := raws[rng.Intn(len(raws))]
+		vals := []gval{{kind: 's', s: strings.ToUpper(raw)}}
+		if ncols == 2 {
+			vals = append(vals, gval{kind: 's', s: seconds[rng.Intn(len(seconds))]})
+		}
+		rows[i] = grow{id: int64(i + 1), vals: vals, raw: map[int]any{0: raw}}
+	}
+	sel, gb, names := "upper(k1) AS u1", "upper(k1)", []string{"u1"}
+	if ncols == 2 {
+		sel, gb, names = sel+", k2 AS second", gb+", k2", append(names, "second")
+	}
+	sql := fmt.Sprintf("SELECT %s, count(*) AS c, collect(id) AS ids, first_value(id) AS fi, last_value(id) AS la FROM stream GROUP BY %s, CountingWindow(%d)", sel, gb, n)
+	sent := sentinelRows(n, ncols)
+	res, err := runSQL(sql, rows, sent, ncols, sawSentinel, 3*time.Second, names...)
+	if err != nil {
+		return err
+	}
+	res = dropSentinel(res)
+	o.Line("C04 T sql-fnkey %d %d %d %s # %s", n, ncols, len(rows), rowsTok(rows), resultsTok(res, true))
+	o.Count("sql function-valued key + alias")
+	return nil
+}
+
 func genCountingRows(rng *RNG) (n, ncols int, rows []grow) {
 	n = []int{1, 2, 3, 7}[rng.Intn(4)]
 	ncols = rng.Intn(4)
@@ -763,7 +804,7 @@ func runC04(tier string, seed uint64, o *Out) error {
 		{{S("\x00NULL"), S("z")}, {{kind: 'n'}, S("z")}},
 		{{S(""), S("z")}, {{kind: 'n'}, S("z")}},
 	} {
-		rows := []grow{{1, w[0]}, {2, w[1]}, {3, w[0]}, {4, w[1]}}
+		rows := []grow{{id: 1, vals: w[0]}, {id: 2, vals: w[1]}, {id: 3, vals: w[0]}, {id: 4, vals: w[1]}}
 		for _, kind := range []string{"counting", "global"} {
 			res, err := countingSQL(rng, kind, 2, 2, rows)
 			if err != nil {
@@ -804,6 +845,11 @@ func runC04(tier string, seed uint64, o *Out) error {
 		}
 		o.Line("C04 T sql-%s %d %d %d %s # %s", kind, n, ncols, len(rows), rowsTok(rows), resultsTok(res, true))
 		o.Count(fmt.Sprintf("sql-%s cols=%d", kind, ncols))
+	}
+	for i := 0; i < nGlb/3; i++ {
+		if err := fnKeyCase(rng, o); err != nil {
+			return err
+		}
 	}
 	// timed cases run concurrently, each with its own generator derived from the seed
 	lines, err := parallel(nSes, 12, func(i int) (string, error) {
